@@ -23,7 +23,8 @@ type core struct {
 	eofData bool // deliver the last chunk together with io.EOF
 	zeroAt  int  // return (0, nil) once when pos >= zeroAt (-1: never)
 
-	closes          int
+	closes          int // every Close call is counted (no Once)
+	closeWithErr    int
 	reads           int
 	readsAfterClose int
 	usedWriteTo     bool
@@ -143,12 +144,13 @@ func (c *core) close() error {
 type snapshot struct {
 	closes, reads, readsAfterClose, pos int
 	usedWriteTo, panicked               bool
+	closeWithErr                        int
 }
 
 func (c *core) snap() snapshot {
 	c.mu.Lock()
 	defer c.mu.Unlock()
-	return snapshot{c.closes, c.reads, c.readsAfterClose, c.pos, c.usedWriteTo, c.panicked}
+	return snapshot{c.closes, c.reads, c.readsAfterClose, c.pos, c.usedWriteTo, c.panicked, c.closeWithErr}
 }
 
 type plainS struct{ c *core }
@@ -159,6 +161,18 @@ type closerS struct{ c *core }
 
 func (s closerS) Read(p []byte) (int, error) { return s.c.read(p) }
 func (s closerS) Close() error               { return s.c.close() }
+
+// cweS additionally implements fasthttp.ReadCloserWithError.
+type cweS struct{ c *core }
+
+func (s cweS) Read(p []byte) (int, error) { return s.c.read(p) }
+func (s cweS) Close() error               { return s.c.close() }
+func (s cweS) CloseWithError(error) error {
+	s.c.mu.Lock()
+	s.c.closeWithErr++
+	s.c.mu.Unlock()
+	return nil
+}
 
 type wtS struct{ c *core }
 
